@@ -49,16 +49,18 @@ def _job(a):
     from pyvc.contract import verify_job
     import signal
 
+    from pyvc.core import JobTimeout as core_JobTimeout
+
     cname, shape, max_paths, budget = a
 
     def onalarm(*_):
-        raise TimeoutError("job budget")
+        raise core_JobTimeout("job budget")
 
     signal.signal(signal.SIGALRM, onalarm)
     signal.alarm(budget)
     try:
         return verify_job(cname, shape, max_paths=max_paths)
-    except TimeoutError:
+    except (TimeoutError, core_JobTimeout):
         return dict(contract=cname, shape=shape, paths=0, clauses={}, refuted=[], undecided=[f"job budget {budget}s exceeded"], exceptions=[], stub_calls={}, pre_false=0, t=budget, stats={})
     except BaseException as e:  # engine crash inside a worker
         import traceback
